@@ -32,7 +32,56 @@ pub fn z_value(confidence: Confidence) -> f64 {
 ///
 pub fn t_value(confidence: Confidence, degrees_of_freedom: f64) -> f64 {
     let student_t = StudentsT::new(0., 1., degrees_of_freedom).unwrap();
-    student_t.inverse_cdf(confidence.quantile())
+    let p = confidence.quantile();
+    refine_quantile(&student_t, p, student_t.inverse_cdf(p))
+}
+
+///
+/// Refine the approximation `x` of the quantile of `dist` at probability `p`.
+///
+/// The inverse CDF of the t distribution loses accuracy as the degrees of freedom grow and
+/// occasionally misses the quantile altogether (e.g., 0.0148 instead of 0.970 for 22192 degrees
+/// of freedom at p = 0.8339), whereas the CDF is accurate. The quantile is therefore bracketed
+/// around the approximation and polished by Newton steps on the CDF, falling back to
+/// bisection whenever a step leaves the bracket.
+///
+fn refine_quantile(dist: &StudentsT, p: f64, x: f64) -> f64 {
+    use statrs::distribution::Continuous;
+    if !x.is_finite() {
+        return x;
+    }
+    let residual = |x: f64| dist.cdf(x) - p;
+    // bracket the quantile (the CDF is non-decreasing)
+    let mut width = 1e-4 * (1. + x.abs());
+    let (mut lo, mut hi) = (x, x);
+    while residual(lo) > 0. {
+        lo -= width;
+        width *= 4.;
+    }
+    while residual(hi) < 0. {
+        hi += width;
+        width *= 4.;
+    }
+    let mut x = x;
+    for _ in 0..100 {
+        let r = residual(x);
+        if r > 0. {
+            hi = x;
+        } else {
+            lo = x;
+        }
+        let newton = x - r / dist.pdf(x);
+        let next = if lo < newton && newton < hi {
+            newton
+        } else {
+            0.5 * (lo + hi)
+        };
+        if (next - x).abs() <= 1e-15 * (1. + x.abs()) {
+            return next;
+        }
+        x = next;
+    }
+    x
 }
 
 const POPULATION_LIMIT: f64 = 100_000.;
